@@ -464,14 +464,18 @@ func newList(r io.Reader) (Value, error) {
 	if size > listValueMaxSize {
 		return nil, ErrListValueTooLong
 	}
-	list := make([]Value, size)
-	for i := range list {
-		list[i], err = NewValue(r)
+	// the list grows with the elements actually read: the count found
+	// on the wire costs nothing by itself (lists nested in lists would
+	// otherwise allocate 64 KiB per level for eleven bytes of input).
+	list := make([]Value, 0)
+	for i := 0; i < int(size); i++ {
+		v, err := NewValue(r)
 		if err != nil {
 			return nil, err
 		}
+		list = append(list, v)
 	}
-	return ListValue(list), err
+	return ListValue(list), nil
 }
 
 // List constructs a Value.
